@@ -144,7 +144,7 @@ End(res, key, digest, cmp, readMsg, fEnd) ==   \* fEnd: whole frames accepted wh
   /\ call.known => fEnd >= written                  \* (counts frames of zero length too)
   /\ res \in {"ok", "err"}
   /\ (On("C12") /\ res = "ok") => (~rHit /\ ~wHit)                     \* C12: a hit fault is never success
-  /\ (On("C03") /\ res = "ok" /\ call.known) =>
+  /\ ((On("C03") \/ On("C12")) /\ res = "ok" /\ call.known) =>      \* C03; C12: short writes lose nothing
         /\ call.badAt = 0
         /\ fEnd - base = IdealHere(call, docsSeen)                    \* C03: every document written ..
         /\ (to # "toml") => fEnd - base = call.ndocs                  \*      .. and none missing
